@@ -88,10 +88,11 @@ func TestDebugSystem(t *testing.T) {
 		simrt.TimeSleep(11 * time.Second)
 		show("after remote close 1")
 		// observer dials H through the mapped endpoint
-		pubA := ma.StringCast(fmt.Sprintf("/ip4/%s/udp/4001/quic-v1", pub))
+		ipp := "ip4"
 		if fam == "v6" {
-			pubA = ma.StringCast(fmt.Sprintf("/ip6/%s/udp/4001/quic-v1", pub))
+			ipp = "ip6"
 		}
+		pubA := ma.StringCast(fmt.Sprintf("/%s/%s/udp/4001/quic-v1", ipp, pub))
 		obs[0].PS.AddAddrs(h.ID, []ma.Multiaddr{pubA}, peerstore.PermanentAddrTTL)
 		ctx, cancel := context.WithTimeout(context.Background(), 30*time.Second)
 		_, err = obs[0].Swarm.DialPeer(ctx, h.ID)
